@@ -153,7 +153,11 @@ def oracles(rec):
                 bad("C08", "returned task errors %s, but the failed tasks are %s" % (users, want))
             nctx = len([x for x in werr if x.startswith("C")])
             skipped_ctx = len([e for e in ev if e["k"] == "WSkip" and e.get("e", "").startswith("C")])
-            if users or nctx:
+            # with no recorded failure at all, Wait falls back to its own context's error (scheduler.go,
+            # "if err == nil { err = ctx.Err() }"): one context error of Wait's context without a skipped task
+            wait_ctx_fallback = (not users and skipped_ctx == 0 and werr == ["C0"] and
+                                 (0 in cancel_end or any(e["k"] == "CancelBegin" and e.get("e") == "C0" for e in ev)))
+            if (users or nctx) and not wait_ctx_fallback:
                 if nctx != skipped_ctx:
                     bad("C08", "%d context errors returned but %d tasks were skipped for their context" % (nctx, skipped_ctx))
             for j in range(n):
